@@ -267,6 +267,11 @@ def reads_external_state(mod, fn) -> bool:
 
 
 # ------------------------------------------------------------------------------------------------ scope rule
+def AnalysisErrorProxy(msg):
+    from .core import AnalysisError
+    return AnalysisError(msg)
+
+
 def _self_attrs(term: P):
     return {a[2] for a in find_atoms(term, lambda a: a[0] == "attr" and a[1].key() == "self")}
 
@@ -326,6 +331,17 @@ def _cache_findings(mod, rel, fx=None):
                         writers.append(m.name)
                 if writers:
                     why.append(f"instances are keyed by identity but {writers[:4]} change attributes the method reads")
+        # the cached object is shared by every caller: it must be immutable (or the cache hands out copies)
+        try:
+            from .rules.generic import returns_mutable, inline_single_return_hook
+            fev = Ev(fn, mod.ctx).run()
+            kinds = [returns_mutable(getattr(mod, "repo", None), mod, r.value) for r in fev.returns if r.value is not None]
+        except Exception:
+            kinds = [None]
+        if any(k is True for k in kinds):
+            why.append("the cached value is a mutable array/list handed to every caller: one caller's in-place change alters all later results")
+        elif any(k is None for k in kinds) and not why:
+            raise AnalysisErrorProxy(f"{rel}:{qual}: cannot decide whether the value cached by @{txt} is immutable")
         out.append((qual, fn, "deco:" + txt.split("(")[0], not why, "no result cache in front of state that can change", "; ".join(why) or txt))
     return out
 
